@@ -1417,6 +1417,7 @@ int32_t tls13ParseServerHello(ssl_t *ssl,
 {
     int32_t rc;
     psSizeL_t sessionIdLen = 0;
+    unsigned char sessionIdEcho[SSL_MAX_SESSION_ID_SIZE] = { 0 };
     uint32_t cipher;
     unsigned char compressionMethod;
     uint16_t tmp_u16;
@@ -1491,7 +1492,10 @@ int32_t tls13ParseServerHello(ssl_t *ssl,
         ssl->tls13IncorrectDheKeyShare = PS_FALSE;
     }
 
-    /* opaque legacy_session_id_echo<0..32>; */
+    /* opaque legacy_session_id_echo<0..32>; - kept aside: whether this is
+       an echo (TLS 1.3) or a session id of the server's own (TLS 1.2 and
+       below, decided by the legacy parser) is not known yet, and
+       ssl->sessionId still holds what WE sent. */
     rc = psParseBufParseTlsVector(pb, 0, 32, &sessionIdLen);
     if (rc <= 0)
     {
@@ -1502,7 +1506,7 @@ int32_t tls13ParseServerHello(ssl_t *ssl,
     {
         rc = psParseBufTryParseOctets(pb,
                 sessionIdLen,
-                ssl->sessionId,
+                sessionIdEcho,
                 PS_TRUE);
         if (rc == 0)
         {
@@ -1512,7 +1516,7 @@ int32_t tls13ParseServerHello(ssl_t *ssl,
 
     psTracePrintHex(INDENT_HS_MSG,
             "legacy_session_id_echo",
-            ssl->sessionId,
+            sessionIdEcho,
             sessionIdLen,
             PS_TRUE);
 
@@ -1569,6 +1573,16 @@ int32_t tls13ParseServerHello(ssl_t *ssl,
     }
 
     /* Now we can do the postponed checks. */
+    if (sessionIdLen != ssl->sessionIdLen ||
+        (sessionIdLen > 0 &&
+         Memcmp(sessionIdEcho, ssl->sessionId, sessionIdLen) != 0))
+    {
+        /* RFC 8446, 4.1.3: legacy_session_id_echo is the contents of the
+           client's legacy_session_id. */
+        ssl->err = SSL_ALERT_ILLEGAL_PARAMETER;
+        psTraceErrr("legacy_session_id_echo does not match\n");
+        return MATRIXSSL_ERROR;
+    }
     if (!sslClientOfferedCipherSuite(ssl, cipher))
     {
         ssl->err = SSL_ALERT_ILLEGAL_PARAMETER;
